@@ -207,7 +207,7 @@ DecodeClauses(e) ==
    THEN {<<"C10.alloc-budget", "Reserve_BeforeCheck">>} ELSE {})
   \cup
   (* C11: a strict prefix of a valid encoding is rejected *)
-  (IF P("C11") /\ Get(part, b, FALSE) /\ e.res # "err" THEN {<<"C11.truncated-accepted", "none">>} ELSE {})
+  (IF P("C11") /\ Get(part, b, FALSE) /\ e.res = "ok" THEN {<<"C11.truncated-accepted", "none">>} ELSE {})    \* (a panic here is C09's)
   \cup
   (* C12: the key selects the pinned type; unknown keys are errors *)
   (IF P("C12") /\ HasKind(T, "body")
@@ -276,7 +276,7 @@ PrimClauses(e) ==
           \cup (IF P("C03") /\ fn \in IntOnlyFns /\ R.ok /\ ~agree THEN {<<"C03.primitive-read", "none">>} ELSE {})
           \cup (IF P("C18") /\ R.ok /\ e.tag = "read-back" /\ (e.res # "ok" \/ Len(e.ret) # Len(R.ret))
                  THEN {<<"C18.read-back", "none">>} ELSE {})
-          \cup (IF P("C11") /\ ~R.ok /\ R.why = "short" /\ e.res # "err" THEN {<<"C11.primitive-short-read", "none">>} ELSE {})
+          \cup (IF P("C11") /\ ~R.ok /\ R.why = "short" /\ e.res = "ok" THEN {<<"C11.primitive-short-read", "none">>} ELSE {})
           \cup (IF P("C09") /\ e.res \notin {"ok", "err"}
               THEN {<<"C09.primitive-outcome", IF e.res = "abort" THEN "Reserve_BeforeCheck" ELSE "none">>} ELSE {})
           \cup (IF P("C10") /\ e.alloc >= 0 /\ e.alloc > 16384 + 64 * e.inlen THEN {<<"C10.primitive-alloc", "Reserve_BeforeCheck">>} ELSE {})
